@@ -38,8 +38,16 @@ fn run_prefetch_case<Tr: TreeApi>(rep: &mut Rep, spec: &SeqSpec, tie: u64, budge
 
     // dense sweep: every position of the last sampling period(s) of level 0, every symbol
     let n = m.len();
-    let lo = n.saturating_sub(n % 2048 + sweep);
-    let syms: Vec<u128> = if m.syms.len() <= 48 { m.syms.clone() } else { (0..48).map(|_| *rng.pick(&m.syms)).collect() };
+    // moderate inputs are swept at EVERY position (this hits, for every level and digit, the exact
+    // positions of the sampled occurrences, where the estimate overshoots the real position across a
+    // sampling-period boundary); long inputs over the last sampling period(s)
+    let full_sweep = sweep >= 2048 && n <= 30_000;
+    let lo = if full_sweep { 0 } else { n.saturating_sub(n % 2048 + sweep) };
+    let sym_cap = if full_sweep { 16 } else { 48 };
+    let syms: Vec<u128> = if m.syms.len() <= sym_cap { m.syms.clone() } else { (0..sym_cap).map(|_| *rng.pick(&m.syms)).collect() };
+    if full_sweep {
+        rep.gate_add("full_position_sweeps", 1);
+    }
     let lens = t.level_lens();
     for &c in &syms {
         let cs = <Tr::Item as Sym>::from_u128(c);
@@ -199,6 +207,38 @@ pub fn cases_c09(cfg: &Cfg) -> Vec<Case> {
                 let desc = J::obj().set("spec", spec.to_json()).set("tie_seed", tie).set("budget", budget).set("sweep", sweep);
                 let w = (n_eff as u64 / 4 + (sweep as u64 + 100) * 60 + budget as u64) * 2;
                 out.push(Case::new(ty, class, desc, w, move |rep: &mut Rep| {
+                    with_tree!(alias, tname, run_prefetch_case, rep, &spec, tie, budget, sweep);
+                }));
+            }
+        }
+    }
+    // sample-aligned inputs: a contiguous block of 2048*m "rare" symbols that starts at position `lead`, so
+    // that the (2048*m)-th occurrence of their common first digit sits exactly on / next to a multiple of
+    // the sampling period
+    if cfg.scale != Scale::Tiny {
+        for (ai, alias) in ["HQWT256Pfs", "HQWT512Pfs", "QWT256Pfs", "QWT512Pfs", "HQWT256"].into_iter().enumerate() {
+            for (vi, (lead, rare_each, m_top)) in [(1usize, 512u64, 3usize), (0, 512, 3), (2, 1024, 3), (1, 2048, 1), (2049, 512, 2)].into_iter().enumerate() {
+                if cfg.scale == Scale::Mid && (ai + vi) % 2 == 1 {
+                    continue;
+                }
+                let mut w: Vec<u64> = vec![rare_each; 4];
+                for k in 0..m_top {
+                    w.push(3000 + lead as u64 + k as u64);
+                }
+                let tname = types[(ai + vi) % types.len()];
+                let spec = SeqSpec {
+                    n: w.iter().sum::<u64>() as usize,
+                    alpha: Alpha::Explicit(vec![0, 1, 2, 3, 10, 11, 12][..w.len()].to_vec()),
+                    dist: Dist::Exact(w),
+                    layout: Layout::RareBlockAfter { lead, top: m_top },
+                    seed: rng.u64(),
+                };
+                let tie = rng.u64();
+                let ty = format!("{}<{}>", alias, tname);
+                let class = format!("{}|sample-aligned{}", ty, vi);
+                let desc = J::obj().set("spec", spec.to_json()).set("tie_seed", tie).set("budget", budget).set("sweep", sweep);
+                let w8 = (spec.n as u64) * 40;
+                out.push(Case::new(ty, class, desc, w8, move |rep: &mut Rep| {
                     with_tree!(alias, tname, run_prefetch_case, rep, &spec, tie, budget, sweep);
                 }));
             }
